@@ -43,6 +43,17 @@ def run(prog, rep):
     from rules import stream_window
     stream_window.check(prog, rep, 'R10.5', floor=9)
     from rules import c09
+    rep.rule('R10.7', 'CSV memory and stream readers select the same column for every (cursor, key) over a header row holding every prefix relation '
+                      'to the key - the column whose header equals the key', floor=2)
+    from rules import csvkey
+    csvkey.check(prog, rep, 'R10.7')
+    rep.rule('R10.8', 'CSV readers: reading a cell does not write the row storage (no store through a pointer into the row buffer), so a cell that is '
+                      'requested twice reads the same in both readers', floor=4)
+    csvkey.check_idempotent(prog, rep, 'R10.8')
+    rep.rule('R10.9', 'the field scanners of the CSV memory and stream readers have the same transition table (the RFC 4180 one) over character class x '
+                      'quotes seen x last CR', floor=2)
+    from rules import csvscan
+    csvscan.check(prog, rep, 'R10.9')
     c09.check_lookahead_fresh(prog, rep, 'R10.6')       # the stream reader must notice the end of input exactly where the memory reader does
 
     try:
